@@ -47,4 +47,5 @@ def main():
         det_b = sorted(k for k, n in e["b"]["state"]["nodes"].items() if n["detached"])
         print("   detached a:", det_a, " b:", det_b)
 
-main()
+if __name__ == "__main__":
+    main()
